@@ -5,7 +5,7 @@
 From Coq Require Import String List NArith ZArith Bool.
 From RPFT Require Import Base.Sexp Base.PyStr Base.Result Base.ODict Gen.Tables Cell.Cell Row.Ty Row.Layout Row.RowParse
   Row.RowUnparse Row.FlowRow Row.RowFacts Row.ParseFold Row.Encodes Row.EncodesFacts Row.FlowHeaderFacts
-  Row.HeaderFacts Row.StarFacts Row.EncodesExamples.
+  Row.HeaderFacts Row.StarFacts Row.ReorderFacts Row.EncodesExamples.
 Import ListNotations.
 
 Theorem C09_tables_ok : row_tables_ok = true.
@@ -61,6 +61,40 @@ Theorem C09_fold_list : forall t cols, is_list_ty t = true -> forall l n,
     /\ (forall i, (i < n)%nat -> fold_slot (child_ty t) (sub_idx i cols) (nth i l ONone) = Ok (nth i l' ONone)).
 Proof. exact fold_list. Qed.
 Print Assumptions C09_fold_list.
+
+(* column order: any rearrangement of a row that keeps, for every top-level field, the relative order
+   of ITS columns (stated through the subsequences sub_key) writes the same value ... *)
+Theorem C09_encodes_reorder : forall rm fields h2f f2h v cells cells' data data',
+  rm_ty rm = TModel fields h2f f2h ->
+  rekey (rm_ctx rm) cells = Ok data -> Enc (rm_ty rm) None v (cols_of data) ->
+  rekey (rm_ctx rm) cells' = Ok data' ->
+  (forall k, sub_key h2f k (cols_of data') = sub_key h2f k (cols_of data)) ->
+  Encodes rm v cells'.
+Proof. exact encodes_reorder. Qed.
+Print Assumptions C09_encodes_reorder.
+
+(* ... in particular swapping two neighbouring columns that belong to different fields (the
+   generator of all such rearrangements), in a row without `*` columns and header context *)
+Theorem C09_swap_columns : forall rm fields h2f f2h v pre a b post,
+  rm_ty rm = TModel fields h2f f2h -> rm_ctx rm = None ->
+  NoDup (map fst (pre ++ a :: b :: post)) -> star_free (pre ++ a :: b :: post) = true ->
+  top_key h2f (fst a) <> top_key h2f (fst b) ->
+  Encodes rm v (pre ++ a :: b :: post) ->
+  Encodes rm v (pre ++ b :: a :: post)
+  /\ parse_row rm (pre ++ b :: a :: post) = parse_row rm (pre ++ a :: b :: post).
+Proof. exact swap_columns. Qed.
+Print Assumptions C09_swap_columns.
+
+Example C09_swap_columns_nonvacuous :
+  let a := (S_ "l.1", S_ "1") in let b := (S_ "es.1.a", S_ "p") in
+  let post := tl (tl cells_spread) in
+  cells_spread = [] ++ a :: b :: post
+  /\ NoDup (map fst ([] ++ a :: b :: post)) /\ star_free ([] ++ a :: b :: post) = true
+  /\ top_key [] (fst a) <> top_key [] (fst b)
+  /\ Encodes rmR vR ([] ++ a :: b :: post)
+  /\ parse_row rmR ([] ++ b :: a :: post) = Ok vR.
+Proof. exact swap_columns_nonvacuous. Qed.
+Print Assumptions C09_swap_columns_nonvacuous.
 
 (* 3. `*` columns.  The implied length of a `*` prefix is max(1, lengths of the list-valued sibling
       `*` columns) ... *)
